@@ -3,7 +3,7 @@ import os
 import subprocess
 import sys
 
-from readers import lines_of
+from readers import read_out, lines_of
 from engine import NCPU, REPO, SPEC, MachineryError, gen_states, pool_map
 from tlaval import parse_action_label
 import tours
@@ -76,7 +76,7 @@ def make_inputs(d, R, long_at=0, bgzf_aligned=False, poison_at=0):
         # the same records as a multi-block BGZF file > 1 MiB in which records start exactly at 64 KiB ... 1 MiB
         from readers import align_starts, starts_of, write_bgzf
 
-        lines = align_starts(open(gaf).read().splitlines(), [1 << 16, 1 << 17, 1 << 18, 1 << 19, 1 << 20], pad=1300)      # > 1 MiB of output per 1000-record batch
+        lines = align_starts(read_out(gaf).splitlines(), [1 << 16, 1 << 17, 1 << 18, 1 << 19, 1 << 20], pad=1300)      # > 1 MiB of output per 1000-record batch
         assert (1 << 20) in starts_of(lines), "alignment of record starts failed"
         os.unlink(gaf)
         gaf = gaf + ".gz"
@@ -97,7 +97,7 @@ def reference_output(gaf, gfa, fa, B, d):
     )
     if p.returncode != 0:
         return None, p.stderr[-500:]
-    return open(out).read().splitlines(keepends=True), ""
+    return read_out(out).splitlines(keepends=True), ""
 
 
 def cfg_text(k, properties=True):
@@ -345,7 +345,7 @@ def real_mp_tier(ctx, R, B, C, kill_at=None, delay=None, bgzf_aligned=False):
         hung = False
     except subprocess.TimeoutExpired:
         rc, hung = None, True
-    lines = lines_of(open(out).read()) if os.path.exists(out) else []
+    lines = lines_of(read_out(out)) if os.path.exists(out) else []
     real_mp_tier.killed = os.path.exists(out + ".killed")
     return rc, hung, [l.split("\t")[0] for l in lines]
 
